@@ -234,14 +234,31 @@ func TestVerif_C11(t *testing.T) {
 		}
 	}
 
+	type mcase struct {
+		size    int
+		seq     uint64
+		closing byte
+	}
+	var mcases []mcase
+	for _, size := range sizes {
+		for _, seq := range seqs {
+			mcases = append(mcases, mcase{size, seq, closingNothing})
+		}
+	}
+	// genuine closing notices (stream and session) are messages too: every part of them is covered
+	mcases = append(mcases, mcase{1, 0, closingStream}, mcase{77, 3, closingStream}, mcase{256, 7, closingStream}, mcase{40, 0, closingSession}, mcase{200, 0, closingSession})
 	for _, m := range aead {
-		for _, size := range sizes {
-			for _, seq := range seqs {
+		for _, mc := range mcases {
+			{
+				size, seq, closingKind := mc.size, mc.seq, mc.closing
 				id := fmt.Sprintf("modify/%s/payload=%d/seq=%d", m.name, size, seq)
+				if closingKind != closingNothing {
+					id = fmt.Sprintf("modify/%s/closing=%d/payload=%d/seq=%d", m.name, closingKind, size, seq)
+				}
 				if !r.Mine(id) {
 					continue
 				}
-				r.Case(id, map[string]any{"method": m.name, "payload": size, "seq": seq})
+				r.Case(id, map[string]any{"method": m.name, "payload": size, "seq": seq, "closing": closingKind})
 				rng := r.Rand("c11", id)
 				e := &c11Env{r: r, method: m.id}
 				rand.Read(e.key[:])
@@ -266,7 +283,11 @@ func TestVerif_C11(t *testing.T) {
 				payload := make([]byte, size)
 				rand.Read(payload)
 				buf := make([]byte, c04Limit)
-				n, err := e.obf.obfuscate(&Frame{StreamID: 1, Seq: seq, Payload: payload}, buf, 0)
+				gsid := uint32(1)
+				if closingKind == closingSession {
+					gsid, seq = 0xffffffff, 0
+				}
+				n, err := e.obf.obfuscate(&Frame{StreamID: gsid, Seq: seq, Closing: closingKind, Payload: payload}, buf, 0)
 				if err != nil {
 					r.Violation(id, "C11:setup", err.Error(), nil)
 					continue
@@ -360,7 +381,7 @@ func TestVerif_C11(t *testing.T) {
 					add(kk, d)
 				}
 				// and finally the genuine message itself must still be accepted and delivered
-				{
+				if closingKind == closingNothing {
 					e.fresh()
 					for e.nextSq < seq {
 						if d := e.deliverValid(); d != "" {
